@@ -12,7 +12,8 @@ def _sig(v, beh):
     own = v.get("own", beh["jidcfg"])
     how = v.get("how", "none")
     return (f"C11:{v['prop']}:{beh['gen']}:{own}:{v['c']}/{v['w']}/{v['i']}"
-            + (f":reconfigured-by-{how}" if how != "none" else ""))
+            + (f":reconfigured-by-{how}" if how != "none" else "")
+            + (f":{v['estab']}" if v.get("estab", "configured") != "configured" else ""))
 
 
 def run(chk, replay=None):
@@ -37,9 +38,12 @@ def run(chk, replay=None):
         # inner messages that carry XEP-0280/0334/0203/0297 markers of their own (<private/>, hints, delay, a nested
         # <forwarded/>), headline / groupchat inner types: tour over representative sender classes and wrappers
         itour, st7 = vf.tlc_gen("CarbonsGen.tla", "CarbonsGenInner.cfg")
-        behs = vf.maximal_behaviours(tour + allp + sim + rtour + rall + rsim + itour)
+        # the own address is not configured but assigned by the server in the RFC 6120 bind result (driven through the
+        # real receive path), with resources that contain '/', '@', non-ASCII text or are very long
+        btour, st8 = vf.tlc_gen("CarbonsGen.tla", "CarbonsGenBound.cfg")
+        behs = vf.maximal_behaviours(tour + allp + sim + rtour + rall + rsim + itour + btour)
         chk.cov["generation"] = {"tour": st1, "all_paths": st2, "simulate": st3, "reconfigure_tour": st4,
-                                 "reconfigure_all_paths": st5, "reconfigure_simulate": st6, "inner_marker_tour": st7}
+                                 "reconfigure_all_paths": st5, "reconfigure_simulate": st6, "inner_marker_tour": st7, "bound_address_tour": st8}
     vf.write_ndjson(chk.path("behaviours.ndjson"), behs)
     # 3. replay on the real client + carbon manager
     trace = chk.path("trace.ndjson")
@@ -77,12 +81,14 @@ def run(chk, replay=None):
         idx = int(v["case"][1:]) - 1
         b = behs[idx]
         sig = _sig(v, b)
-        key = (v["prop"], b["gen"], v["c"], v.get("how", "none"))   # one report per property, generation, sender class, switch
+        key = (v["prop"], b["gen"], v["c"], v.get("how", "none"), v.get("estab", "configured"))   # one report per property, generation, sender class, switch
         if key in seen:
             continue
         seen.add(key)
         ln = lines[v["line"] - 1]
-        sw = (f" after the application switched the account of the live client object ({v['how']})"
+        est = (f" (own address bound by the server: {cases[v['case']][0].get('bound')!r})"
+               if v.get("estab", "configured") != "configured" else "")
+        sw = est + (f" after the application switched the account of the live client object ({v['how']})"
               if v.get("how", "none") != "none" else "")
         chk.violation(sig, f"{v['prop']} fails{sw}: gen={b['gen']} own={ln['x']['own']!r} outer from={ln['x']['ofrom']!r} "
                            f"(class {v['c']}), wrapper {v['w']}, inner {v['i']}: application was shown {ln['shown']}",
